@@ -258,6 +258,10 @@ def _norm(x):
     if isinstance(x, dict):
         if "panic" in x:
             return {"panic": True}     # the panic message is not part of the comparison
+        if "fatal" in x:
+            return {"fatal": True}
+        if "hang" in x and len(x) == 1:
+            return {"hang": True}
         out = {}
         for k, v in x.items():
             v = _norm(v)
